@@ -40,6 +40,7 @@ type Inv struct {
 	Outcome  int // 0 running, 1 ok, 2 returned error, 3 panicked, 4 returned nil
 	Outs     []*Entry
 	Shadow   bool // made on behalf of another provider built from the same collection (see World.Shadow)
+	InPtr    reflect.Value // the parameter object, when the constructor takes it by pointer
 }
 
 // ArgRec records what a constructor received for one declared dependency.
@@ -374,6 +375,9 @@ func FuncType(r *Reg) reflect.Type {
 	var in, out []reflect.Type
 	if r.UseIn {
 		in = []reflect.Type{InStructType(r.Deps)}
+		if r.PtrIn {
+			in[0] = reflect.PointerTo(in[0])
+		}
 	} else {
 		for _, d := range r.Deps {
 			in = append(in, depType(d))
@@ -516,6 +520,14 @@ func (w *World) invoke(r *Reg, ft reflect.Type, args []reflect.Value) []reflect.
 	inv := w.begin(r)
 	if r.UseIn {
 		st := args[0]
+		if st.Kind() == reflect.Pointer {
+			if st.IsNil() {
+				w.anomaly("the constructor of r%d takes its parameter object by pointer and was called with nil", r.ID)
+				st = reflect.New(st.Type().Elem())
+			}
+			inv.InPtr = st
+			st = st.Elem()
+		}
 		for i, d := range r.Deps {
 			inv.Args = append(inv.Args, w.decodeArg(d, st.Field(i+1)))
 		}
@@ -684,6 +696,54 @@ func (w *World) invokeStatic(r *Reg, args []any) (any, error) {
 	e.BornSeq = end
 	inv.Outcome = 1
 	return obj.Interface(), nil
+}
+
+// StaleArgs: a parameter object that a constructor took by pointer belongs to the service that was
+// made from it: what it holds at the end of the run is what the constructor was called with.
+func (w *World) StaleArgs() []string {
+	var out []string
+	for _, inv := range w.AllInvs() {
+		if !inv.InPtr.IsValid() {
+			continue
+		}
+		var r *Reg
+		for i := range w.Cfg.Regs {
+			if w.Cfg.Regs[i].ID == inv.Reg {
+				r = &w.Cfg.Regs[i]
+			}
+		}
+		if r == nil {
+			continue
+		}
+		st := inv.InPtr.Elem()
+		for i, d := range r.Deps {
+			if i >= len(inv.Args) {
+				break
+			}
+			was, now := inv.Args[i], w.decodeArg(d, st.Field(i+1))
+			same := was.Present == now.Present && len(was.Entries) == len(now.Entries) && was.Foreign == now.Foreign
+			for k := 0; same && k < len(was.Entries); k++ {
+				same = was.Entries[k] == now.Entries[k]
+			}
+			if same && d.Builtin != 0 {
+				same = was.Raw == now.Raw
+			}
+			if !same {
+				out = append(out, fmt.Sprintf("invocation #%d of r%d (for scope s%d) took its parameter object by pointer; field %d (%s) held %s when the constructor ran and holds %s at the end of the run", inv.N, r.ID, inv.ScopeTag, i, d, argString(was), argString(now)))
+			}
+		}
+	}
+	return out
+}
+
+func argString(a ArgRec) string {
+	switch {
+	case a.Dep.Builtin != 0:
+		return fmt.Sprintf("%T(%v)", a.Raw, a.Raw)
+	case !a.Present && len(a.Entries) == 0:
+		return "nothing"
+	}
+	return fmt.Sprint(a.Entries)
 }
 
 func (w *World) SetBuildCancel(c func()) {
